@@ -9,7 +9,7 @@ import time
 from . import facts
 
 VERIF = facts.VERIF
-EVID = os.path.join(VERIF, "evidence")
+EVID = os.path.join(VERIF, "evidence" if not os.environ.get("VP_LANE") else os.path.join(".cache", "evidence" + os.environ["VP_LANE"]))
 KNOWN = os.path.join(VERIF, "known_findings.jsonl")
 
 TRUSTED = [
